@@ -276,6 +276,11 @@ pub enum Op {
 }
 
 impl Scenario {
+    /// a scenario for the real-thread engine (OS-thread / pool clients or blocking calls): it cannot
+    /// be run by the single-threaded simulator
+    pub fn needs_rt(&self) -> bool {
+        self.clients.iter().any(|c| c.mode != ClientMode::Task || c.ops.iter().any(|o| matches!(&o.op, Op::Send { how, .. } if how.is_blocking())))
+    }
     /// message ids must be unique (every oracle identifies messages by id)
     pub fn well_formed(&self) -> bool {
         fn walk(steps: &[Step], seen: &mut std::collections::HashSet<u32>) -> bool {
